@@ -944,8 +944,8 @@ class SymEval:
                     return len(x)
                 return _len
             return {'range': lambda *a: list(range(*[int(x) for x in a])), 'len': len, 'int': _int_model, 'float': lambda x: (S(int(x)) if isinstance(x, str) and x.strip().lstrip('+-').isdigit() else (S(float(x)) if isinstance(x, str) else x)),
-                    'abs': lambda x: (vmap(sp.Abs, x) if is_arr(x) else sp.Abs(x)), 'sum': lambda x, start=0: sum(self.iterate(x, n), start), 'min': lambda *a, **k: _minmax(sp.Min, min, a, k, lambda v: self.iterate(v, n)),
-                    'max': lambda *a, **k: _minmax(sp.Max, max, a, k, lambda v: self.iterate(v, n)), 'list': lambda *a: list(self.iterate(a[0], n)) if a else [], 'tuple': lambda *a: tuple(self.iterate(a[0], n)) if a else (),
+                    'abs': lambda x: (vmap(sp.Abs, x) if is_arr(x) else sp.Abs(x)), 'sum': lambda x, start=0: sum(self.iterate(x, n), start), 'min': lambda *a, **k: self._scripted_minmax(True, a, k, p, n) if self._scriptable(a, k) else _minmax(sp.Min, min, a, k, lambda v: self.iterate(v, n)),
+                    'max': lambda *a, **k: self._scripted_minmax(False, a, k, p, n) if self._scriptable(a, k) else _minmax(sp.Max, max, a, k, lambda v: self.iterate(v, n)), 'list': lambda *a: list(self.iterate(a[0], n)) if a else [], 'tuple': lambda *a: tuple(self.iterate(a[0], n)) if a else (),
                     'isinstance': lambda *a: Opaque, 'complex': lambda a, b=0: a + sp.I * b, 'round': lambda x, n=0: x,
                     'zip': lambda *a: list(zip(*[self.iterate(x, n) for x in a])), 'enumerate': lambda a, start=0: list(enumerate(self.iterate(a, n), int(start))), 'str': str}[n.id]
         if n.id == 'iter':
@@ -1212,6 +1212,24 @@ class SymEval:
                 tiny = bool(z)
                 return tiny if isinstance(op, (ast.Lt, ast.LtE)) else tiny
         return r
+
+    def _scriptable(self, a, k):
+        """min(x, y) / max(x, y) of two symbolic scalars while a rule scripts every data-dependent comparison: the choice is a comparison like any other"""
+        if getattr(self, 'decide', None) is None or k or len(a) != 2:
+            return False
+        try:
+            x, y = sp.sympify(a[0]), sp.sympify(a[1])
+        except (sp.SympifyError, TypeError):
+            return False
+        return not is_arr(a[0]) and not is_arr(a[1]) and (x - y).is_number is not True
+
+    def _scripted_minmax(self, is_min, a, k, p, n):
+        x, y = sp.sympify(a[0]), sp.sympify(a[1])
+        rel = sp.StrictLessThan(y, x) if is_min else sp.StrictGreaterThan(y, x)      # Python (and C) take the second argument only if it is strictly smaller / larger
+        d = self.decide(norm(n) if n is not None else 'min', rel, p)
+        if d is None:
+            return sp.Min(x, y) if is_min else sp.Max(x, y)
+        return a[1] if d else a[0]
 
     def e_Lambda(self, n, p):
         """a lambda is a nested function with one return statement; it sees the enclosing function's current bindings"""
